@@ -181,13 +181,13 @@ PROPS = {
     },
     "C09": {
         "proofs": ["ZlProofs.Props.C09"],
-        "corr": [],
+        "corr": ["der"],
         "search": ["c09"],
         "trusted_base": TB_COMMON,
         "assumptions": ["A-SELF: the parser sets SelfSigned only when issuer bytes = subject bytes (checked on every object)",
                         "A-ASN1: encoding/asn1 ignores bit-string contents when e_cert_ext_invalid_der re-parses the certificate",
                         "A-PARSE: replacing the signature bits changes no parsed field other than Signature, Raw and the whole-certificate fingerprints"],
-        "partial": "the two Raw-reading lints are reviewed and exercised by the signature-replacement search; their blindness to the signature bits is not proved",
+        "partial": "of the two Raw-reading lints, e_cert_sig_alg_not_match_tbs_sig_alg is modelled (cryptobyte's DER reader and the walk) and proved blind to the signature element; e_cert_ext_invalid_der re-parses the certificate with encoding/asn1 and is reviewed and exercised by the signature-replacement search only (A-ASN1)",
     },
     "C10": {
         "proofs": ["ZlProofs.Props.C10"],
@@ -331,13 +331,13 @@ CLAIMS = {
     },
     "C09": {
         "proofs": ["ZlProofs.Props.C09"],
-        "corr": [],
+        "corr": ["der"],
         "search": ["c09"],
         "trusted_base": TB_COMMON,
         "assumptions": ["A-SELF: the parser sets SelfSigned only when issuer bytes = subject bytes (checked on every object)",
                         "A-ASN1: encoding/asn1 ignores bit-string contents when e_cert_ext_invalid_der re-parses the certificate",
                         "A-PARSE: replacing the signature bits changes no parsed field other than Signature, Raw and the whole-certificate fingerprints"],
-        "partial": "the two Raw-reading lints are reviewed and exercised by the signature-replacement search; their blindness to the signature bits is not proved",
+        "partial": "of the two Raw-reading lints, e_cert_sig_alg_not_match_tbs_sig_alg is modelled (cryptobyte's DER reader and the walk) and proved blind to the signature element; e_cert_ext_invalid_der re-parses the certificate with encoding/asn1 and is reviewed and exercised by the signature-replacement search only (A-ASN1)",
     },
     "C10": {
         "proofs": ["ZlProofs.Props.C10"],
@@ -383,7 +383,7 @@ CLAIMS.update({
             "text": "history_independent, repetition_constant, object_unchanged hold for arbitrary effectful calls that are read-only; that every lint and helper in the tree is read-only and I/O-free is decided by the kernel over footprints regenerated from the source on every run: no stores through the linted object (incl. append aliasing and re-slices), no package-level stores outside the registration API, every call leaving the module is to a pure package or passes a function-level rule, clock/file sites are exactly the documented ones, map-range sites are order-free or reviewed. Search: deep snapshots before/after, repetitions, intervening histories and targeted cache-key histories on corpus + mutants.",
             "note": "Partial (see DESIGN): soundness of the SSA footprint w.r.t. reflection / unsafe / library internals is trusted + cross-checked, not proved. A-LIB, A-MEMO."},
     "C09": {"technique": "Lean 4 congruence proof + kernel evaluation of regenerated read footprints + signature-replacement search",
-            "text": "runAll_congr / sig_independent: lints whose outcome depends only on fields outside the signature-derived ones give equal result sets on objects agreeing elsewhere. Regenerated facts decided by the kernel: Signature is read by exactly one lint and only through len; Raw by exactly the two reviewed lints; no fingerprint / validation-state reads; no signature-checking calls. Search: every non-self-issued certificate with the signature replaced by zero / one / random / lopsided-ECDSA / other-key bytes of the same length.",
+            "text": "raw_walk_ignores_signature: the one lint that walks c.Raw with cryptobyte is modelled (DER element reader proved to invert the minimal-length encoder, der_reader_inverts_encoder) and its verdict on SEQUENCE{tbs, alg, sig} is a function of tbs and alg alone, for every signature element; runAll_congr / sig_independent: lints whose outcome depends only on fields outside the signature-derived ones give equal result sets on objects agreeing elsewhere. Regenerated facts decided by the kernel: Signature is read by exactly one lint and only through len; Raw by exactly the two reviewed lints; no fingerprint / validation-state reads; no signature-checking calls. Search: every non-self-issued certificate with the signature replaced by zero / one / random / lopsided-ECDSA / other-key bytes of the same length.",
             "note": "Partial: A-SELF, A-ASN1, A-PARSE are validated by the search, not proved."},
     "C10": {"technique": "Lean 4 proof (every interleaving of world-preserving steps equals the sequential runs) + kernel evaluation of regenerated write/lock footprints + race-detector stress",
             "text": "interleaving_eq_sequential holds for every schedule of threads whose calls leave the shared world unchanged; that the code's lint and registry-read operations are such calls is decided by the kernel over regenerated footprints (registry_readers_readonly, lock_discipline, steps_preserve_shared). Search: a -race build running 16 linting goroutines plus 6 registry readers at GOMAXPROCS 16/2/1 with the first registry use inside the concurrent phase, results compared with the same calls made alone.",
